@@ -19,7 +19,7 @@ P = {
                  "C18_fs_active_is_stored_hash", "C18_http_active_is_stored_hash", "C18_fs_converges_world",
                  "C18_fs_F2_refuted", "C18_fs_F4_refuted", "C18_fs_nonvacuous",
                  "C18_blob_all_histories", "C18_blob_stored_hash", "C18_blob_F1_refuted", "C18_blob_F5_refuted",
-                 "C18_blob_F6_refuted"],
+                 "C18_blob_F6_refuted", "C18_k8s_all_histories", "C18_k8s_converges"],
     "streams": [{
         "name": "fs", "pkg": "./internal/rules/provider/filesystem", "test": "TestVerifC18Fs",
         "overlay": dict(_COMMON, **{"internal/rules/provider/filesystem/zz_verif_c18_test.go": "c18/fs_test.go"}),
@@ -75,3 +75,7 @@ P = {
     "assumptions": ["in-package drivers read Provider.states and call unexported handlers: a rename of those breaks the driver, not the property",
                     "the processor's answer depends only on the content (create/update) or the source (delete), not on the call history"],
 }
+
+# VERIF_C18_STREAMS=fs,blob restricts a run to some streams (used for mutation testing only)
+if os.environ.get("VERIF_C18_STREAMS"):
+    P["streams"] = [st for st in P["streams"] if st["name"] in os.environ["VERIF_C18_STREAMS"].split(",")]
